@@ -316,18 +316,21 @@ def as_input(E, M):
 def unit_or_zero(E, name, F, weight_of, N_of):
     """every column of F has sum of squares 1, or is the zero column and the scale that multiplies it is zero.
 
-    Proof tactic (does not change the meaning): N_of(r) is any non-negative expression of the inputs; with n2 := sqrt(N)**2 (= N) the
-    middle disjunct `N != 0 and sum_i (y_i^2 * n2) == n2` implies `sum_i y_i^2 == 1`, so the disjunction is equivalent to the claim.
-    When N is the squared norm of the matching input column, the engine's root atoms cancel and the query is a polynomial identity."""
+    Proof tactic (does not change the meaning): N_of(r) is any non-negative expression of the inputs and v := sqrt(N).  The run is split
+    on v == 0 (the same decision the code under test takes on `scales == 0`, so no new feasible path appears).  On the v != 0 side the
+    extra disjunct `sum_i (y_i^2 * v^2) == v^2` implies `sum_i y_i^2 == 1`, so the disjunction proved is equivalent to the claim; when N
+    is the squared norm of the matching input column the engine's root atoms cancel and the query is a polynomial identity."""
     F = np.asarray(F, dtype=object)
     for r in range(F.shape[1]):
         col = column(F, r)
         zero = E.And([E.eq(x, 0) for x in col] + [E.eq(s, 0) for s in weight_of(r)])
-        N = N_of(r)
-        v = E.sqrt(N)
-        n2 = v * v
-        scaled = sum((x * x) * n2 for x in col)
-        E.prove(f"{name}/c{r}", E.Or(E.eq(ssq(col), 1), E.And(E.Not(E.eq(N, 0)), E.eq(scaled, n2)), zero))
+        v = E.sqrt(N_of(r))
+        if bool(v == 0):
+            E.prove(f"{name}/c{r}", E.Or(E.eq(ssq(col), 1), zero))
+        else:
+            n2 = v * v
+            scaled = sum((x * x) * n2 for x in col)
+            E.prove(f"{name}/c{r}", E.Or(E.eq(ssq(col), 1), E.eq(scaled, n2), zero))
 
 
 def cp_dense_unchanged(E, w2, fs2, w, fs):
